@@ -1,5 +1,6 @@
 import OrdModel.Proofs.RunestoneEncipher
 import OrdModel.Proofs.RunestoneFields
+import OrdModel.Proofs.RunestoneRoundtrip
 /-!
 # C25 — Runestones round-trip and deciphering is total with the documented flaws
 
@@ -158,7 +159,83 @@ theorem c25_roundtrip_varints (xs : List Nat) (h : ∀ x ∈ xs, x < 2 ^ 128) :
     integers (encodeInts xs) = .ok xs :=
   integers_encodeInts xs h
 
+/-- **Round trip.**  For every runestone whose components are inside their Rust types (`typed`)
+and that is well-formed for a transaction with `n` outputs (`wf`: n < 2^32; edict ids valid and
+outputs ≤ n; divisibility ≤ 38, spacers ≤ MAX_SPACERS, supply fits u128; mint id valid;
+pointer < n): `encipher` does not panic, and in any transaction with `n` outputs in which the
+enciphered script is the first output starting with `OP_RETURN OP_13`, `decipher` returns exactly
+that runestone with its edicts stably sorted by rune id — no other normalisation (`Some(0)` stays
+`Some(0)`, an all-`None` etching/terms stays `Some`). -/
+theorem c25_roundtrip (r : Runestone) (pre post : List (List UInt8))
+    (hpre : anyMagic pre = false) (ht : r.typed = true)
+    (hw : r.wf (pre.length + 1 + post.length) = true) :
+    ∃ s, encipher r = .ok s ∧ decipher (pre ++ s :: post) = .ok (some (.runestone r.sorted)) := by
+  obtain ⟨ints, hi, hlt, hd⟩ := encipherInts_roundtrip r _ ht hw
+  obtain ⟨s, hs, hp⟩ := c25_roundtrip_script (encodeInts ints) pre post hpre
+  refine ⟨s, by simp [encipher, hi, hs], ?_⟩
+  have hlen : (pre ++ s :: post).length = pre.length + 1 + post.length := by
+    simp only [List.length_append, List.length_cons]; omega
+  simp [decipher, hp, integers_encodeInts ints hlt, hlen, hd]
+
+/-- `encipher` never panics on a typed runestone (the `delta(..).unwrap()` is safe because the
+edicts were just sorted; the single push is below 2^32 bytes by chunking). -/
+theorem c25_encipher_total (r : Runestone) (ht : r.typed = true) : ∃ s, encipher r = .ok s := by
+  unfold encipher encipherInts
+  have hps : ∀ p, ∃ s, payloadScript p = .ok s := fun p => by
+    obtain ⟨rest, h, _⟩ := payloadScript_roundtrip p
+    exact ⟨_, h⟩
+  cases hed : r.edicts with
+  | nil => simpa using hps _
+  | cons e es =>
+    have htyped := ht
+    simp only [Runestone.typed, Bool.and_eq_true, List.all_eq_true] at htyped
+    have : ∀ (S : List Edict) (prev : RuneId), chainLe prev S → ∃ ints, edictInts prev S = .ok ints := by
+      intro S
+      induction S with
+      | nil => intro _ _; exact ⟨[], rfl⟩
+      | cons x xs ih =>
+        intro prev hc
+        obtain ⟨ints, hi⟩ := ih x.id hc.2
+        have hle := hc.1
+        simp only [RuneId.le, Bool.or_eq_true, Bool.and_eq_true, decide_eq_true_eq, beq_iff_eq] at hle
+        have : ∃ b t, prev.delta x.id = some (b, t) := by
+          unfold RuneId.delta
+          by_cases h1 : x.id.block < prev.block
+          · omega
+          · by_cases h2 : x.id.block - prev.block = 0
+            · have : ¬ x.id.tx < prev.tx := by omega
+              simp [h1, h2, this]
+            · simp [h1, h2]
+        obtain ⟨b, t, hbt⟩ := this
+        exact ⟨b :: t :: x.amount :: x.output :: ints, by simp [edictInts, hbt, hi]⟩
+    obtain ⟨ints, hi⟩ := this (sortEdicts r.edicts) ⟨0, 0⟩ (chain_sortEdicts _)
+    rw [hed] at hi
+    simpa [hi] using hps _
+
 example : anyMagic [[0x6a, 0x5d, 0x00], []] = true := by decide
 example : anyMagic [[0x6a], [0x6a, 0x01, 0x5d], [0x00, 0x14]] = false := by decide
+
+/-- non-vacuity of the round trip: a typed, well-formed runestone with unsorted, repeated edict
+ids (one with `output = n`), an etching with terms, a mint and a pointer, 3 outputs -/
+def exampleRunestone : Runestone :=
+  ⟨[⟨⟨2, 1⟩, 5, 3⟩, ⟨⟨1, 0⟩, 7, 0⟩, ⟨⟨2, 1⟩, 9, 1⟩],
+    some ⟨some 0, some 1000, some 26, some 1, some 36,
+      some ⟨some 5, some 10, none, some 9, none, none⟩, true⟩,
+    some ⟨1, 0⟩, some 2⟩
+
+example : exampleRunestone.typed = true ∧ exampleRunestone.wf 3 = true := by decide
+example : exampleRunestone.sorted.edicts = [⟨⟨1, 0⟩, 7, 0⟩, ⟨⟨2, 1⟩, 5, 3⟩, ⟨⟨2, 1⟩, 9, 1⟩] := by
+  decide
+-- flaw-order components on concrete field lists
+example : specUnrecognizedFlag [(2, 9)] = true ∧ specUnrecognizedFlag [(2, 2)] = true
+    ∧ specUnrecognizedFlag [(2, 7)] = false := by decide
+example : specEvenTag 1 [(4, 5)] = true ∧ specEvenTag 1 [(2, 1), (4, 5)] = false
+    ∧ specEvenTag 1 [(2, 1), (4, 5), (4, 6)] = true ∧ specEvenTag 1 [(22, 1)] = true
+    ∧ specEvenTag 2 [(22, 1)] = false ∧ specEvenTag 1 [(3, 9), (127, 0)] = false := by decide
+example : structureFlaw 1 [2, 1, 4] = some .truncatedField
+    ∧ structureFlaw 1 [0, 1, 1, 5] = some .trailingIntegers
+    ∧ structureFlaw 1 [0, 0, 1, 5, 0] = some .edictRuneId
+    ∧ structureFlaw 1 [0, 1, 1, 5, 2] = some .edictOutput
+    ∧ structureFlaw 1 [0, 1, 1, 5, 1] = none := by decide
 
 end Ord.Runestone
